@@ -41,7 +41,7 @@ class EltoritoBootInfoTable:
     is an optional table that may be patched into the boot file at offset 8,
     and is 64-bytes long.
     """
-    __slots__ = ('_initialized', 'orig_len', 'csum', 'vd', 'inode')
+    __slots__ = ('_initialized', 'orig_len', 'csum', 'vd', 'inode', 'reserved')
 
     def __init__(self):
         # type: () -> None
@@ -54,7 +54,9 @@ class EltoritoBootInfoTable:
 
         Parameters:
          vd - The Volume Descriptor associated with this Boot Info Table.
-         datastr - The string to parse the boot info table out of.
+         datastr - The string to parse the boot info table out of; the four
+                   fields of the table, optionally followed by the 40 bytes of
+                   the reserved area.
          ino - The Inode associated with the boot file.
         Returns:
          True if this is a valid El Torito Boot Info Table, False otherwise.
@@ -70,6 +72,9 @@ class EltoritoBootInfoTable:
         if pvd_extent != vd.extent_location() or rec_extent != ino.extent_location():
             return False
 
+        # The reserved area belongs to the table, but it is not ours to
+        # change on a boot file that already carries a table.
+        self.reserved = datastr[16:56].ljust(40, b'\x00')
         self.vd = vd
         self.inode = ino
         self._initialized = True
@@ -95,6 +100,7 @@ class EltoritoBootInfoTable:
         self.orig_len = orig_len
         self.csum = csum
         self.inode = ino
+        self.reserved = b'\x00' * 40
         self._initialized = True
 
     def record(self):
@@ -112,7 +118,7 @@ class EltoritoBootInfoTable:
 
         return struct.pack('<LLLL', self.vd.extent_location(),
                            self.inode.extent_location(), self.orig_len,
-                           self.csum) + b'\x00' * 40
+                           self.csum) + self.reserved
 
     @staticmethod
     def header_length():
